@@ -24,12 +24,12 @@ Toks == {"S", "B", "D", "Q"}    \* set-mode, bag-mode, shared default q-gram tok
 InitMode == [k \in Toks |-> IF k \in {"S", "Q"} THEN 1 ELSE 0]      \* 1 = return_set
 
 (* which tokenizer a call uses ("-" none), the mode it forces (-1 none), rejected? *)
-CallTok(c)  == CASE c \in {1, 12, 14, 15, 19} -> "S"
+CallTok(c)  == CASE c \in {1, 12, 14, 15, 19, 23, 24} -> "S"
                  [] c \in {2, 3, 4, 5, 6, 9, 10, 13, 18} -> "B"
                  [] c \in {7, 11} -> "D"
-                 [] c = 8 -> "Q"
+                 [] c \in {8, 22} -> "Q"
                  [] OTHER -> "-"
-CallNeeds(c) == CASE c \in (1..6) \cup {18, 19} -> 1  [] c \in {7, 8} -> 0  [] OTHER -> -1
+CallNeeds(c) == CASE c \in (1..6) \cup {18, 19, 22, 23, 24} -> 1  [] c \in {7, 8} -> 0  [] OTHER -> -1
 Rejected(c) == c \in {9, 10, 11}
 
 VARIABLES hist, pos, phase, mode, saved
